@@ -5,8 +5,13 @@
 // folder is read back; checks/c20.py turns the record into a trace for spec/trace/HealthLoopTrace.tla.
 //
 // One JSON line on stdin per history:
-//   {"kind":"monitor","seq0":"0","steps":[[["1"],"u"], [[],"s"], ...]}
-// steps[k] = what happens before poll k: the sequence-number changes (each one = the enable handler's two calls,
+//   {"kind":"monitor","seq0":"0","ext_version":"1.0.30","tmp":"same","steps":[[["1"],"u",""], [[],"s","1"], ...]}
+// ext_version = what the extension's copy of the agent answers to --version (the installed stand-in always answers
+// 1.0.30: another value here is a VERSION MISMATCH, and the loop runs the install step on every new sequence number);
+// tmp = where the process's temporary directory (TMPDIR) is: "same" a directory of the scratch file system, which
+// also holds the status folder, "other" /tmp (this run's overlay, another file system); both are verified by st_dev.
+// steps[k] = what happens before poll k (third element: what the STAND-IN setup tool's `install` does from now on:
+// "" no change, "<n>" exit with n, "x" cannot be started = its x bits are taken away): the sequence-number changes (each one = the enable handler's two calls,
 // common::update_current_seq_no and, when it says so, common::report_status_enable_command) and then the state of
 // the agent's aggregate status file, one letter as in kind "report": 's' refreshed by a healthy agent (new
 // content), 'u' left as it is / the last healthy content again, 'm' missing, 'v' other version, 'g' not JSON.
@@ -26,9 +31,11 @@
 //     Both are created HERE, inside the sandbox of harness/sys/ns_enter.sh: a private mount namespace
 //     (`unshare -m --propagation private`) with an overlayfs over /etc /usr /var /tmp /root /home /opt ... whose
 //     upper layers live in the scratch directory.  The service-path stub prints the same version as the
-//     extension's copy, so the loop sees NO version mismatch and runs neither backup nor install; the only setup
-//     tool calls left are the one `purge` / `restore` of restore_purge_proxyagent (first Success / Error report),
-//     and they reach the stub.  The orchestrator treats any other call in setup_calls.log as a tool error.
+//     extension's copy unless the history asks for a version mismatch, so by default the loop runs neither backup
+//     nor install and the only setup tool calls are the one `purge` / `restore` of restore_purge_proxyagent (first
+//     Success / Error report); in a mismatch history `backup` and `install` are run too.  ALL of them reach the
+//     stub, which only logs its arguments and, for `install`, exits with the code the history prescribes.  The
+//     orchestrator treats backup/install calls in a history without mismatch as a tool error.
 //   * before anything is written or the loop is started, `sandbox()` below verifies from /proc/self/mounts that
 //     /usr, /var and /etc ARE this run's overlays (upperdir under $VERIF_C17_SANDBOX), that the mount namespace is
 //     not the one ns_enter.sh was started from, and that the executable itself lives in the scratch directory;
@@ -42,13 +49,26 @@ use std::io::Write;
 use std::path::{Path, PathBuf};
 use std::time::Duration;
 
-const VERSION: &str = "1.0.30";
+const INSTALLED_VERSION: &str = "1.0.30";
 const OTHER_VERSION: &str = "0.9.9";
 
 #[derive(serde::Deserialize)]
 struct MCmd {
     seq0: String,
-    steps: Vec<(Vec<String>, String)>,
+    #[serde(default)]
+    ext_version: String,
+    #[serde(default)]
+    tmp: String,
+    steps: Vec<(Vec<String>, String, String)>,
+}
+
+fn version_stub(v: &str) -> String {
+    format!("#!/bin/sh\n# verif stand-in (C20 monitor): answers --version only\necho {}\n", v)
+}
+
+fn dev_of(p: &Path) -> u64 {
+    use std::os::unix::fs::MetadataExt;
+    std::fs::metadata(p).unwrap_or_else(|e| panic!("monitor: stat {}: {}", p.display(), e)).dev()
 }
 
 fn sandbox(exe_dir: &Path) -> PathBuf {
@@ -83,15 +103,16 @@ fn put_script(path: &Path, text: &str) {
 fn prepare(exe_dir: &Path) {
     static ONCE: std::sync::Once = std::sync::Once::new();
     ONCE.call_once(|| {
-        let version_stub = format!("#!/bin/sh\n# verif stand-in (C20 monitor): answers --version only\necho {}\n", VERSION);
-        put_script(&exe_dir.join("ProxyAgent/ProxyAgent/azure-proxy-agent"), &version_stub);
         // inside the /usr overlay of this run (sandbox() has verified it)
-        put_script(&common::get_proxy_agent_service_path(), &version_stub);
+        put_script(&common::get_proxy_agent_service_path(), &version_stub(INSTALLED_VERSION));
         put_script(
             &common::setup_tool_exe_path(),
-            "#!/bin/sh\n# verif stand-in for proxy_agent_setup (C20 monitor): records its arguments, does nothing\n\
-             echo \"$*\" >> \"$(dirname \"$0\")/../setup_calls.log\"\nexit 0\n",
+            "#!/bin/sh\n# verif stand-in for proxy_agent_setup (C20 monitor): records its arguments and does nothing;\n\
+             # `install` exits with the code found in setup_install_rc\n\
+             d=\"$(dirname \"$0\")/..\"\necho \"$*\" >> \"$d/setup_calls.log\"\n\
+             if [ \"$1\" = install ] && [ -f \"$d/setup_install_rc\" ]; then exit \"$(cat \"$d/setup_install_rc\")\"; fi\nexit 0\n",
         );
+        std::fs::create_dir_all(exe_dir.join("tmp")).unwrap();
         std::fs::create_dir_all(agg::PROXY_AGENT_AGGREGATE_STATUS_FOLDER).unwrap();
         logger::init_logger(
             misc_helpers::path_to_string(&exe_dir.join("log")),
@@ -149,6 +170,7 @@ fn read_status_folder(folder: &Path) -> serde_json::Value {
 }
 
 struct Env {
+    version: String,           // the extension's copy of the agent (what a healthy aggregate status must carry)
     exe_dir: PathBuf,
     status_folder: PathBuf,
     agg_file: PathBuf,
@@ -172,12 +194,36 @@ impl Env {
         self.events.push(serde_json::json!({"e": "seq", "to": seq, "wrote": wrote, "files": read_status_folder(&self.status_folder)}));
     }
 
+    /// what the stand-in setup tool's `install` does from now on
+    fn set_install(&mut self, what: &str) {
+        use std::os::unix::fs::PermissionsExt;
+        let tool = common::setup_tool_exe_path();
+        let mode = |m: u32| std::fs::set_permissions(&tool, std::fs::Permissions::from_mode(m)).unwrap();
+        match what {
+            "" => {}
+            "x" => mode(0o644),
+            n => {
+                let _: i32 = n.parse().expect("monitor: install exit code");
+                std::fs::write(self.exe_dir.join("setup_install_rc"), n).unwrap();
+                mode(0o755);
+            }
+        }
+    }
+
+    /// the stand-in's calls since the last look
+    fn take_setup_calls(&mut self) -> Vec<String> {
+        let p = self.exe_dir.join("setup_calls.log");
+        let calls = std::fs::read_to_string(&p).unwrap_or_default();
+        let _ = std::fs::remove_file(&p);
+        calls.lines().map(|l| l.to_string()).collect()
+    }
+
     /// returns (success observation expected, tag of the content the loop will read)
     fn set_agg(&mut self, letter: &str) -> (u8, String) {
         match letter {
             "s" => {
                 self.n += 1;
-                let d = agg_doc(VERSION, self.n);
+                let d = agg_doc(&self.version, self.n);
                 std::fs::write(&self.agg_file, &d).unwrap();
                 self.last_good = Some((d, self.n));
                 self.have_good = true;
@@ -186,7 +232,7 @@ impl Env {
                 if !self.have_good {
                     let (d, n) = self.last_good.clone().unwrap_or_else(|| {
                         self.n += 1;
-                        (agg_doc(VERSION, self.n), self.n)
+                        (agg_doc(&self.version, self.n), self.n)
                     });
                     std::fs::write(&self.agg_file, &d).unwrap();
                     self.last_good = Some((d, n));
@@ -238,6 +284,35 @@ pub fn run(line: &str, out: &mut dyn Write) {
     let hdir = exe_dir.join(format!("h{}", idx));
     let status_folder = hdir.join("status");
     std::fs::create_dir_all(&status_folder).unwrap();
+    // a write probe of the harness itself: only if THIS fails the folder is unusable (tool error); whatever the code under
+    // test fails to put there afterwards is an observation
+    {
+        let probe = status_folder.join("verif-probe");
+        std::fs::write(&probe, b"probe").expect("monitor: the status folder is not writable");
+        std::fs::remove_file(&probe).expect("monitor: the status folder is not writable");
+    }
+    // the environment dimension "temporary directory of the process": same file system as the status folder, or another one
+    let tmpdir = match c.tmp.as_str() {
+        "" | "same" => exe_dir.join("tmp"),
+        "other" => PathBuf::from("/tmp"),
+        o => panic!("monitor: unknown tmp layout {}", o),
+    };
+    std::env::set_var("TMPDIR", &tmpdir);
+    let same_fs = dev_of(&std::env::temp_dir()) == dev_of(&status_folder);
+    if same_fs != (c.tmp != "other") {
+        panic!("monitor: layout {:?} asked for, but temp dir {} and the status folder are {} file system",
+               c.tmp, std::env::temp_dir().display(), if same_fs { "one" } else { "not one" });
+    }
+    // what the enable handler's document looks like: written by the real function into a folder INSIDE the temporary
+    // directory (no file-system boundary in between, whatever the layout)
+    let handler_doc = {
+        let pf = std::env::temp_dir().join(format!("verif-c20-probe-{}", std::process::id()));
+        let _ = std::fs::remove_dir_all(&pf);
+        common::report_status_enable_command(pf.to_path_buf(), "0", None);
+        let v = read_status_folder(&pf);
+        let _ = std::fs::remove_dir_all(&pf);
+        v["0"].clone()
+    };
     let p2s = |p: &Path| misc_helpers::path_to_string(p);
     std::fs::write(
         exe_dir.join(constants::HANDLER_ENVIRONMENT_FILE),
@@ -248,7 +323,10 @@ pub fn run(line: &str, out: &mut dyn Write) {
         .to_string(),
     )
     .unwrap();
+    let version = if c.ext_version.is_empty() { INSTALLED_VERSION.to_string() } else { c.ext_version.clone() };
+    put_script(&exe_dir.join("ProxyAgent/ProxyAgent/azure-proxy-agent"), &version_stub(&version));
     let _ = std::fs::remove_file(exe_dir.join(constants::CURRENT_SEQ_NO_FILE));
+    let _ = std::fs::remove_dir_all(exe_dir.join("status")); // interim reports of the install step
     let agg_file = PathBuf::from(agg::PROXY_AGENT_AGGREGATE_STATUS_FOLDER).join(agg::PROXY_AGENT_AGGREGATE_STATUS_FILE_NAME);
     let _ = std::fs::remove_file(&agg_file);
     let log_file = exe_dir.join("log").join(constants::SERVICE_LOG_FILE);
@@ -256,8 +334,10 @@ pub fn run(line: &str, out: &mut dyn Write) {
     let _ = std::fs::remove_file(&log_file);
     let mut log_seen = 0usize;
 
-    let mut env = Env { exe_dir, status_folder: status_folder.clone(), agg_file, n: (idx as u64) * 100_000, have_good: false,
+    let mut env = Env { version, exe_dir, status_folder: status_folder.clone(), agg_file, n: (idx as u64) * 100_000, have_good: false,
                         last_good: None, events: Vec::new() };
+    env.set_install("0");
+    let _ = env.take_setup_calls();
     env.enable(&c.seq0);
     {
         let first = env.events.pop().unwrap();
@@ -271,12 +351,13 @@ pub fn run(line: &str, out: &mut dyn Write) {
         .expect("paused current-thread runtime");
     let wall = std::time::Instant::now();
     let steps = c.steps;
-    let (env, polls_total, virtual_s) = rt.block_on(async move {
+    let (mut env, polls_total, virtual_s) = rt.block_on(async move {
         let mut polls_total = 0usize;
-        let apply = |env: &mut Env, step: &(Vec<String>, String)| -> (u8, String) {
+        let apply = |env: &mut Env, step: &(Vec<String>, String, String)| -> (u8, String) {
             for s in step.0.iter() {
                 env.enable(s);
             }
+            env.set_install(&step.2);
             env.set_agg(&step.1)
         };
         let mut expected = if steps.is_empty() { (0, String::new()) } else { apply(&mut env, &steps[0]) };
@@ -291,8 +372,9 @@ pub fn run(line: &str, out: &mut dyn Write) {
             }
             let seen = count_polls(&log_file, &mut log_seen);
             polls_total += seen;
+            let calls = env.take_setup_calls();
             env.events.push(serde_json::json!({"e": "poll", "k": k, "ok": expected.0, "obs": expected.1, "letter": steps[k].1,
-                "polls_seen": seen, "files": read_status_folder(&env.status_folder)}));
+                "polls_seen": seen, "setup": calls, "files": read_status_folder(&env.status_folder)}));
             if k + 1 < steps.len() {
                 expected = apply(&mut env, &steps[k + 1]);
             }
@@ -302,15 +384,15 @@ pub fn run(line: &str, out: &mut dyn Write) {
         (env, polls_total, (tokio::time::Instant::now() - t0).as_secs())
     });
     drop(rt);
+    env.set_install("0");
     let _ = std::fs::remove_file(&env.agg_file);
     let cur = common::get_current_seq_no(&env.exe_dir);
-    let calls = std::fs::read_to_string(env.exe_dir.join("setup_calls.log")).unwrap_or_default();
-    let _ = std::fs::remove_file(env.exe_dir.join("setup_calls.log"));
+    let _ = env.take_setup_calls();
     writeln!(
         out,
         "{}",
         serde_json::json!({"events": env.events, "polls": polls_total, "virtual_s": virtual_s, "wall_ms": wall.elapsed().as_millis() as u64,
-            "cur": cur, "setup_calls": calls.lines().collect::<Vec<_>>(),
+            "cur": cur, "handler_doc": handler_doc, "same_fs": same_fs, "installed_version": INSTALLED_VERSION, "ext_version": env.version,
             "names": [constants::PLUGIN_CONNECTION_NAME, constants::PLUGIN_STATUS_NAME, constants::PLUGIN_FAILED_AUTH_NAME]})
     )
     .unwrap();
